@@ -230,7 +230,7 @@ func builtinIntrinsics() map[string]intrinsic {
 		}
 	}
 	// verifYield(): an explicit scheduling point
-	m["@verifYield"] = func(p *Path, fr *frame, pos token.Pos, args []Value) Value { p.yield(fr); return nil }
+	m["@verifYield"] = func(p *Path, fr *frame, pos token.Pos, args []Value) Value { p.yieldVoluntary(fr); return nil }
 	m["@verifSymbolic"] = func(p *Path, fr *frame, pos token.Pos, args []Value) Value {
 		return p.st.True
 	}
